@@ -33,6 +33,9 @@ func runC47(c *core.Check) {
 	c.Rule("C47.fallback", "GetEncodedSubset returns the full encoding when subsetting fails")
 	cfg := xmlTaintConfig()
 	cfg.trackOrigins = true
+	// the corpus itself feeds the font subsetter, whose output (an encoded font) is written into the document:
+	// that is not text being drawn
+	cfg.originKill = map[string]bool{"(oss.terrastruct.com/d2/d2renderers/d2fonts.Font).GetEncodedSubset": true}
 	e := newTaintEngine(c.P, cfg, append(append([]string{}, xmlScope...), "d2target"))
 	// corpus side
 	gc := mustFunc(c, "d2target", "Diagram", "GetCorpus")
@@ -41,6 +44,35 @@ func runC47(c *core.Check) {
 	}
 	gk := e.fnKind(c.P.SSAFunc(gc), 0, 0)
 	corpus := toSet(gk.orig)
+	// methods of model types that GetCorpus calls to obtain text (cf.Text(0), c.Texts(0), c.ConstraintAbbr()):
+	// the receiver fields those methods read are collected too
+	ginfo := gc.Pkg.TypesInfo
+	for _, call := range core.Calls(gc.Decl.Body, true) {
+		f := core.CalleeOf(ginfo, call)
+		if f == nil || f.Pkg() != gc.Pkg.Types {
+			continue
+		}
+		mfi := c.P.Decl(f)
+		if mfi == nil || mfi.Decl.Recv == nil || len(mfi.Decl.Recv.List) == 0 || len(mfi.Decl.Recv.List[0].Names) == 0 {
+			continue
+		}
+		recv := ginfo.Defs[mfi.Decl.Recv.List[0].Names[0]]
+		rt := namedOf(recv.Type())
+		if rt == nil {
+			continue
+		}
+		ast.Inspect(mfi.Decl.Body, func(n ast.Node) bool {
+			sel, ok := n.(*ast.SelectorExpr)
+			if !ok || rootIdent(ginfo, sel) != recv {
+				return true
+			}
+			if core.FieldOf(ginfo, sel) != nil {
+				p := exprStr(sel)
+				corpus[rt.Obj().Name()+p[strings.Index(p, "."):]] = true
+			}
+			return true
+		})
+	}
 	if len(corpus) < 6 {
 		c.Broken("GetCorpus: only %d contributing field paths found (%v)", len(corpus), gk.orig)
 		return
